@@ -152,6 +152,9 @@ func (sc *scen) doFree(mut string) *outcome {
 	if n > 0 {
 		k = sc.r.Intn(min(n, 3) + 1)
 	}
+	if mut == "rsig-underpay-unit" && n >= 2 {
+		k = 2 + sc.r.Intn(min(n, 3)-1)
+	}
 	perm := sc.r.Perm(n)
 	idxs := make([]uint64, 0, k+1)
 	for _, p := range perm[:k] {
@@ -175,6 +178,7 @@ func (sc *scen) doFree(mut string) *outcome {
 		}
 	}
 	hp, pterm := sc.prices(mut)
+	sc.unit = hp.FreeSectorPrice
 	chal, cterm := sc.challenge(key, id, absID, old.RevisionNumber+1, mut)
 	req := proto4.RPCFreeSectorsRequest{ContractID: id, Prices: hp, Indices: idxs, ChallengeSignature: chal}
 	newRoots := swapRemove(roots, idxs)
@@ -261,6 +265,10 @@ func (sc *scen) doAppend(mut string) *outcome {
 	}
 	if rerr != nil {
 		rev = manualRev(old, newRoot)
+	}
+	sc.unit = types.ZeroCurrency
+	if ct != nil && old.ExpirationHeight > hp.TipHeight {
+		sc.unit = hp.RPCAppendSectorsCost(1, old.ExpirationHeight-hp.TipHeight).RenterCost()
 	}
 	o := &outcome{kind: "append", mut: mut, ct: ct, mustReject: mut != "none", newRoots: newRoots, setRoots: true,
 		expCost: cur(usage.RenterCost())}
@@ -594,6 +602,7 @@ func (sc *scen) doRoots(mut string) *outcome {
 		length = 1 << 40
 	}
 	hp, pterm := sc.prices(mut)
+	sc.unit = hp.EgressPrice.Mul64(4096)
 	rev, _, rerr := proto4.ReviseForSectorRoots(old, hp, length)
 	if rerr != nil {
 		rev = manualRev(old, old.FileMerkleRoot)
